@@ -134,6 +134,7 @@ static void generate(Case& c, Rng& rng, const WLEntry& wl, bool thorough, long m
     for (unsigned i = nInit; i > 1; --i)
       std::swap(c.initial[i - 1], c.initial[rng.below(i)]);
   c.items.reset(new PerItem[c.prog.size()]);
+  c.itemPayload.reset(new uint64_t[c.prog.size() + 1]());
   c.objs.reset(new Obj[std::max(1u, c.nObjs)]);
   for (unsigned o = 0; o < c.nObjs; ++o)
     c.objs[o].log.reserve(64);
@@ -422,6 +423,7 @@ int main(int argc, char** argv) {
     clear_payloads();
     if (c.nObjs)
       register_payload(c.objs.get(), sizeof(Obj) * c.nObjs, "lockable-payload");
+    register_payload(c.itemPayload.get(), sizeof(uint64_t) * c.prog.size(), "worklist-payload");
     g_tsanPayloadReports.store(0);
 #endif
     galois::setActiveThreads(c.threads);
@@ -455,7 +457,9 @@ int main(int argc, char** argv) {
 #if VERIF_TSAN
     uint64_t pr = g_tsanPayloadReports.exchange(0);
     if (pr)
-      H.violation(c.key("C06", "lockable-handover-no-happens-before"), J().kv("tsan_payload_reports", pr).str());
+      H.violation(c.key("C06", !strcmp(g_tsanLastPayload, "worklist-payload") ? "worklist-push-pop-no-happens-before"
+                                                                          : "lockable-handover-no-happens-before"),
+                  J().kv("worklist", c.wlName).kv("tsan_payload_reports", pr).kv("region", std::string(g_tsanLastPayload)).str());
 #endif
     uint64_t aborts   = cnt.starts > cnt.committed ? cnt.starts - cnt.committed : 0;
     bool nontrivial   = cnt.threadsUsed >= 2 && (aborts > 0 || c.prog.size() > c.initial.size());
